@@ -1,12 +1,426 @@
 package main
 
 import (
+	"path/filepath"
+
 	"github.com/deadsy/sdfx/sdf"
+	v2 "github.com/deadsy/sdfx/vec/v2"
+	"github.com/deadsy/sdfx/vec/v2i"
+	v3 "github.com/deadsy/sdfx/vec/v3"
+	"github.com/deadsy/sdfx/vec/v3i"
 )
+
+// catBoxMesh returns a closed box (12 triangles, outward facing) centred on c.
+func catBoxMesh(c, size v3.Vec) []*sdf.Triangle3 {
+	h := size.MulScalar(0.5)
+	p := func(sx, sy, sz float64) v3.Vec {
+		return v3.Vec{X: c.X + sx*h.X, Y: c.Y + sy*h.Y, Z: c.Z + sz*h.Z}
+	}
+	quad := func(a, b, cc, d v3.Vec) []*sdf.Triangle3 {
+		return []*sdf.Triangle3{{a, b, cc}, {a, cc, d}}
+	}
+	var m []*sdf.Triangle3
+	m = append(m, quad(p(-1, -1, -1), p(-1, 1, -1), p(1, 1, -1), p(1, -1, -1))...) // -z
+	m = append(m, quad(p(-1, -1, 1), p(1, -1, 1), p(1, 1, 1), p(-1, 1, 1))...)     // +z
+	m = append(m, quad(p(-1, -1, -1), p(1, -1, -1), p(1, -1, 1), p(-1, -1, 1))...) // -y
+	m = append(m, quad(p(-1, 1, -1), p(-1, 1, 1), p(1, 1, 1), p(1, 1, -1))...)     // +y
+	m = append(m, quad(p(-1, -1, -1), p(-1, -1, 1), p(-1, 1, 1), p(-1, 1, -1))...) // -x
+	m = append(m, quad(p(1, -1, -1), p(1, 1, -1), p(1, 1, 1), p(1, -1, 1))...)     // +x
+	return m
+}
+
+// catTetraMesh returns a closed tetrahedron (4 triangles, outward facing).
+func catTetraMesh() []*sdf.Triangle3 {
+	a := v3.Vec{X: 4, Y: 4, Z: 4}
+	b := v3.Vec{X: -4, Y: -4, Z: 4}
+	c := v3.Vec{X: -4, Y: 4, Z: -4}
+	d := v3.Vec{X: 4, Y: -4, Z: -4}
+	return []*sdf.Triangle3{{a, b, d}, {a, c, b}, {a, d, c}, {b, c, d}}
+}
+
+// catLMesh returns the line segments of a closed L shaped polygon.
+func catLMesh() []*sdf.Line2 {
+	v := []v2.Vec{{X: 0, Y: 0}, {X: 10, Y: 0}, {X: 10, Y: 4}, {X: 4, Y: 4}, {X: 4, Y: 10}, {X: 0, Y: 10}}
+	out := make([]*sdf.Line2, len(v))
+	for i := range v {
+		out[i] = &sdf.Line2{v[i], v[(i+1)%len(v)]}
+	}
+	return out
+}
+
+func catOffsetBox2(size v2.Vec, round float64, ofs v2.Vec) sdf.SDF2 {
+	return sdf.Transform2D(sdf.Box2D(size, round), sdf.Translate2d(ofs))
+}
+
+func catOffsetSphere(r float64, ofs v3.Vec) sdf.SDF3 {
+	return sdf.Transform3D(must3(sdf.Sphere3D(r)), sdf.Translate3d(ofs))
+}
 
 func init() {
 	register(catEntry{Name: "cache2d-extrude", Ctors: []string{"sdf.Cache2D", "sdf.Extrude3D", "sdf.Polygon2D"},
 		Build3: func(lw *leafWrapper) sdf.SDF3 { return sdf.Extrude3D(sdf.Cache2D(lw.w2(starPolygon())), 6) }})
 	register(catEntry{Name: "cache2d", Ctors: []string{"sdf.Cache2D"},
 		Build2: func(lw *leafWrapper) sdf.SDF2 { return sdf.Cache2D(lw.w2(starPolygon())) }})
+
+	//-------------------------------------------------------------------------
+	// 2D primitives
+
+	register(catEntry{Name: "circle2d", Ctors: []string{"sdf.Circle2D"},
+		Build2: func(lw *leafWrapper) sdf.SDF2 { return must2(sdf.Circle2D(4)) }})
+	register(catEntry{Name: "box2d", Ctors: []string{"sdf.Box2D"},
+		Build2: func(lw *leafWrapper) sdf.SDF2 { return sdf.Box2D(v2.Vec{X: 6, Y: 4}, 0) }})
+	register(catEntry{Name: "box2d-round", Ctors: []string{"sdf.Box2D"},
+		Build2: func(lw *leafWrapper) sdf.SDF2 { return sdf.Box2D(v2.Vec{X: 6, Y: 4}, 0.75) }})
+	register(catEntry{Name: "line2d", Ctors: []string{"sdf.Line2D"},
+		Build2: func(lw *leafWrapper) sdf.SDF2 { return sdf.Line2D(8, 1) }})
+	register(catEntry{Name: "polygon2d", Ctors: []string{"sdf.Polygon2D", "sdf.Mesh2D"},
+		Build2: func(lw *leafWrapper) sdf.SDF2 { return starPolygon() }})
+	register(catEntry{Name: "mesh2d", Ctors: []string{"sdf.Mesh2D"},
+		Build2: func(lw *leafWrapper) sdf.SDF2 { return must2(sdf.Mesh2D(catLMesh())) }})
+	register(catEntry{Name: "mesh2d-slow", Ctors: []string{"sdf.Mesh2DSlow"},
+		Build2: func(lw *leafWrapper) sdf.SDF2 { return must2(sdf.Mesh2DSlow(catLMesh())) }})
+	register(catEntry{Name: "bezier2d", Ctors: []string{"sdf.Mesh2D"}, Shared: true,
+		Build2: func(lw *leafWrapper) sdf.SDF2 { return bezierProfile() }})
+	register(catEntry{Name: "text2d", Ctors: []string{"sdf.Text2D"}, Shared: true, Heavy: true,
+		Build2: func(lw *leafWrapper) sdf.SDF2 {
+			f, err := sdf.LoadFont(filepath.Join(repoDir(), "files", "cmr10.ttf"))
+			if err != nil {
+				panic("text2d: " + err.Error())
+			}
+			return must2(sdf.Text2D(f, sdf.NewText("Hi!\nsdf"), 10))
+		}})
+	register(catEntry{Name: "flange1", Ctors: []string{"sdf.NewFlange1"},
+		Build2: func(lw *leafWrapper) sdf.SDF2 { return sdf.NewFlange1(30, 20, 10) }})
+	register(catEntry{Name: "flat-flank-cam", Ctors: []string{"sdf.FlatFlankCam2D"},
+		Build2: func(lw *leafWrapper) sdf.SDF2 { return must2(sdf.FlatFlankCam2D(30, 20, 5)) }})
+	register(catEntry{Name: "make-flat-flank-cam", Ctors: []string{"sdf.MakeFlatFlankCam", "sdf.FlatFlankCam2D"},
+		Build2: func(lw *leafWrapper) sdf.SDF2 { return must2(sdf.MakeFlatFlankCam(0.094, sdf.DtoR(2.0*57.5), 0.625)) }})
+	register(catEntry{Name: "three-arc-cam", Ctors: []string{"sdf.ThreeArcCam2D"},
+		Build2: func(lw *leafWrapper) sdf.SDF2 { return must2(sdf.ThreeArcCam2D(30, 20, 5, 200)) }})
+	register(catEntry{Name: "make-three-arc-cam", Ctors: []string{"sdf.MakeThreeArcCam", "sdf.ThreeArcCam2D"},
+		Build2: func(lw *leafWrapper) sdf.SDF2 { return must2(sdf.MakeThreeArcCam(0.1, sdf.DtoR(2.0*80), 0.7, 1.1)) }})
+	register(catEntry{Name: "cubic-spline2d", Ctors: []string{"sdf.CubicSpline2D"},
+		Build2: func(lw *leafWrapper) sdf.SDF2 {
+			knots := []v2.Vec{{X: 0, Y: 0}, {X: 3, Y: 4}, {X: 6, Y: 1}, {X: 9, Y: 5}, {X: 12, Y: 2}}
+			return must2(sdf.CubicSpline2D(knots))
+		}})
+	register(catEntry{Name: "gear-rack2d", Ctors: []string{"sdf.GearRack2D"},
+		Build2: func(lw *leafWrapper) sdf.SDF2 {
+			return must2(sdf.GearRack2D(&sdf.GearRackParms{
+				NumberTeeth:   11,
+				Module:        2,
+				PressureAngle: sdf.DtoR(20),
+				Backlash:      0.05,
+				BaseHeight:    3,
+			}))
+		}})
+	register(catEntry{Name: "arc-spiral2d", Ctors: []string{"sdf.ArcSpiral2D"},
+		Build2: func(lw *leafWrapper) sdf.SDF2 { return must2(sdf.ArcSpiral2D(1.0, 20.0, 0.25*sdf.Pi, 4*sdf.Tau, 1.0)) }})
+	register(catEntry{Name: "iso-thread-external", Ctors: []string{"sdf.ISOThread"},
+		Build2: func(lw *leafWrapper) sdf.SDF2 { return must2(sdf.ISOThread(5, 2, true)) }})
+	register(catEntry{Name: "iso-thread-internal", Ctors: []string{"sdf.ISOThread"},
+		Build2: func(lw *leafWrapper) sdf.SDF2 { return must2(sdf.ISOThread(5, 2, false)) }})
+	register(catEntry{Name: "acme-thread", Ctors: []string{"sdf.AcmeThread"},
+		Build2: func(lw *leafWrapper) sdf.SDF2 { return must2(sdf.AcmeThread(5, 2)) }})
+	register(catEntry{Name: "ansi-buttress-thread", Ctors: []string{"sdf.ANSIButtressThread"},
+		Build2: func(lw *leafWrapper) sdf.SDF2 { return must2(sdf.ANSIButtressThread(5, 2)) }})
+	register(catEntry{Name: "plastic-buttress-thread", Ctors: []string{"sdf.PlasticButtressThread"},
+		Build2: func(lw *leafWrapper) sdf.SDF2 { return must2(sdf.PlasticButtressThread(5, 2)) }})
+
+	//-------------------------------------------------------------------------
+	// 2D combinators
+
+	register(catEntry{Name: "offset2d", Ctors: []string{"sdf.Offset2D"},
+		Build2: func(lw *leafWrapper) sdf.SDF2 { return sdf.Offset2D(lw.w2(sdf.Box2D(v2.Vec{X: 6, Y: 4}, 0)), 1) }})
+	register(catEntry{Name: "offset2d-negative", Ctors: []string{"sdf.Offset2D"},
+		Build2: func(lw *leafWrapper) sdf.SDF2 { return sdf.Offset2D(lw.w2(starPolygon()), -0.5) }})
+	register(catEntry{Name: "union2d", Ctors: []string{"sdf.Union2D"},
+		Build2: func(lw *leafWrapper) sdf.SDF2 {
+			a := lw.w2(must2(sdf.Circle2D(4)))
+			b := lw.w2(catOffsetBox2(v2.Vec{X: 5, Y: 5}, 0.5, v2.Vec{X: 3, Y: 2}))
+			c := lw.w2(catOffsetBox2(v2.Vec{X: 2, Y: 8}, 0, v2.Vec{X: -3, Y: 0}))
+			return sdf.Union2D(a, b, c)
+		}})
+	register(catEntry{Name: "union2d-blend", Ctors: []string{"sdf.Union2D"},
+		Build2: func(lw *leafWrapper) sdf.SDF2 {
+			a := lw.w2(must2(sdf.Circle2D(4)))
+			b := lw.w2(catOffsetBox2(v2.Vec{X: 5, Y: 5}, 0.5, v2.Vec{X: 3, Y: 2}))
+			u := sdf.Union2D(a, b)
+			u.(*sdf.UnionSDF2).SetMin(sdf.PolyMin(1.0))
+			return u
+		}})
+	register(catEntry{Name: "difference2d", Ctors: []string{"sdf.Difference2D"},
+		Build2: func(lw *leafWrapper) sdf.SDF2 {
+			a := lw.w2(sdf.Box2D(v2.Vec{X: 8, Y: 6}, 1))
+			b := lw.w2(must2(sdf.Circle2D(2)))
+			return sdf.Difference2D(a, b)
+		}})
+	register(catEntry{Name: "intersect2d", Ctors: []string{"sdf.Intersect2D"},
+		Build2: func(lw *leafWrapper) sdf.SDF2 {
+			a := lw.w2(must2(sdf.Circle2D(4)))
+			b := lw.w2(catOffsetBox2(v2.Vec{X: 6, Y: 6}, 0, v2.Vec{X: 2, Y: 1}))
+			return sdf.Intersect2D(a, b)
+		}})
+	register(catEntry{Name: "cut2d", Ctors: []string{"sdf.Cut2D"},
+		Build2: func(lw *leafWrapper) sdf.SDF2 {
+			return sdf.Cut2D(lw.w2(must2(sdf.Circle2D(4))), v2.Vec{X: 0.5, Y: 0}, v2.Vec{X: 1, Y: 2})
+		}})
+	register(catEntry{Name: "transform2d", Ctors: []string{"sdf.Transform2D"},
+		Build2: func(lw *leafWrapper) sdf.SDF2 {
+			m := sdf.Translate2d(v2.Vec{X: 3, Y: -2}).Mul(sdf.Rotate2d(sdf.DtoR(30)))
+			return sdf.Transform2D(lw.w2(sdf.Box2D(v2.Vec{X: 6, Y: 3}, 0.5)), m)
+		}})
+	register(catEntry{Name: "transform2d-mirror", Ctors: []string{"sdf.Transform2D"},
+		Build2: func(lw *leafWrapper) sdf.SDF2 { return sdf.Transform2D(lw.w2(starPolygon()), sdf.MirrorX()) }})
+	register(catEntry{Name: "scale-uniform2d", Ctors: []string{"sdf.ScaleUniform2D"},
+		Build2: func(lw *leafWrapper) sdf.SDF2 { return sdf.ScaleUniform2D(lw.w2(starPolygon()), 0.5) }})
+	register(catEntry{Name: "center2d", Ctors: []string{"sdf.Center2D"},
+		Build2: func(lw *leafWrapper) sdf.SDF2 { return sdf.Center2D(lw.w2(starPolygon())) }})
+	register(catEntry{Name: "center-and-scale2d", Ctors: []string{"sdf.CenterAndScale2D"},
+		Build2: func(lw *leafWrapper) sdf.SDF2 { return sdf.CenterAndScale2D(lw.w2(starPolygon()), 1.5) }})
+	register(catEntry{Name: "array2d", Ctors: []string{"sdf.Array2D"},
+		Build2: func(lw *leafWrapper) sdf.SDF2 {
+			return sdf.Array2D(lw.w2(must2(sdf.Circle2D(2))), v2i.Vec{X: 3, Y: 2}, v2.Vec{X: 5, Y: 6})
+		}})
+	register(catEntry{Name: "array2d-blend", Ctors: []string{"sdf.Array2D"},
+		Build2: func(lw *leafWrapper) sdf.SDF2 {
+			a := sdf.Array2D(lw.w2(must2(sdf.Circle2D(2))), v2i.Vec{X: 2, Y: 2}, v2.Vec{X: 3.5, Y: 3.5})
+			a.(*sdf.ArraySDF2).SetMin(sdf.PolyMin(0.8))
+			return a
+		}})
+	register(catEntry{Name: "rotate-union2d", Ctors: []string{"sdf.RotateUnion2D"},
+		Build2: func(lw *leafWrapper) sdf.SDF2 {
+			t := lw.w2(catOffsetBox2(v2.Vec{X: 4, Y: 1}, 0.2, v2.Vec{X: 4, Y: 0}))
+			return sdf.RotateUnion2D(t, 5, sdf.Rotate2d(sdf.DtoR(72)))
+		}})
+	register(catEntry{Name: "rotate-copy2d", Ctors: []string{"sdf.RotateCopy2D"},
+		Build2: func(lw *leafWrapper) sdf.SDF2 {
+			t := lw.w2(catOffsetBox2(v2.Vec{X: 2, Y: 1}, 0.2, v2.Vec{X: 5, Y: 0}))
+			return sdf.RotateCopy2D(t, 9)
+		}})
+	register(catEntry{Name: "elongate2d", Ctors: []string{"sdf.Elongate2D"},
+		Build2: func(lw *leafWrapper) sdf.SDF2 { return sdf.Elongate2D(lw.w2(must2(sdf.Circle2D(2))), v2.Vec{X: 3, Y: 1}) }})
+	register(catEntry{Name: "line-of2d", Ctors: []string{"sdf.LineOf2D"},
+		Build2: func(lw *leafWrapper) sdf.SDF2 {
+			return sdf.LineOf2D(lw.w2(must2(sdf.Circle2D(1))), v2.Vec{X: 0, Y: 0}, v2.Vec{X: 20, Y: 5}, "xx.xx")
+		}})
+	register(catEntry{Name: "multi2d", Ctors: []string{"sdf.Multi2D"},
+		Build2: func(lw *leafWrapper) sdf.SDF2 {
+			return sdf.Multi2D(lw.w2(sdf.Box2D(v2.Vec{X: 2, Y: 2}, 0.3)), v2.VecSet{{X: 0, Y: 0}, {X: 4, Y: 1}, {X: -3, Y: 5}})
+		}})
+	register(catEntry{Name: "slice2d", Ctors: []string{"sdf.Slice2D"},
+		Build2: func(lw *leafWrapper) sdf.SDF2 {
+			s := lw.w3(must3(sdf.Cone3D(10, 5, 2, 0.5)))
+			return sdf.Slice2D(s, v3.Vec{X: 0, Y: 0, Z: 1}, v3.Vec{X: 1, Y: 2, Z: 3})
+		}})
+	register(catEntry{Name: "slice2d-axis", Ctors: []string{"sdf.Slice2D"},
+		Build2: func(lw *leafWrapper) sdf.SDF2 {
+			s := lw.w3(must3(sdf.Box3D(v3.Vec{X: 6, Y: 4, Z: 8}, 1)))
+			return sdf.Slice2D(s, v3.Vec{}, v3.Vec{X: 0, Y: 0, Z: 1})
+		}})
+
+	//-------------------------------------------------------------------------
+	// 3D primitives
+
+	register(catEntry{Name: "sphere3d", Ctors: []string{"sdf.Sphere3D"},
+		Build3: func(lw *leafWrapper) sdf.SDF3 { return must3(sdf.Sphere3D(5)) }})
+	register(catEntry{Name: "box3d", Ctors: []string{"sdf.Box3D"},
+		Build3: func(lw *leafWrapper) sdf.SDF3 { return must3(sdf.Box3D(v3.Vec{X: 6, Y: 4, Z: 8}, 0)) }})
+	register(catEntry{Name: "box3d-round", Ctors: []string{"sdf.Box3D"},
+		Build3: func(lw *leafWrapper) sdf.SDF3 { return must3(sdf.Box3D(v3.Vec{X: 6, Y: 4, Z: 8}, 1)) }})
+	register(catEntry{Name: "cylinder3d", Ctors: []string{"sdf.Cylinder3D"},
+		Build3: func(lw *leafWrapper) sdf.SDF3 { return must3(sdf.Cylinder3D(10, 3, 0.5)) }})
+	register(catEntry{Name: "capsule3d", Ctors: []string{"sdf.Capsule3D"},
+		Build3: func(lw *leafWrapper) sdf.SDF3 { return must3(sdf.Capsule3D(10, 2)) }})
+	register(catEntry{Name: "cone3d", Ctors: []string{"sdf.Cone3D"},
+		Build3: func(lw *leafWrapper) sdf.SDF3 { return must3(sdf.Cone3D(10, 5, 2, 0.5)) }})
+	register(catEntry{Name: "gyroid3d", Ctors: []string{"sdf.Gyroid3D", "sdf.Intersect3D"},
+		Build3: func(lw *leafWrapper) sdf.SDF3 {
+			g := lw.w3(must3(sdf.Gyroid3D(v3.Vec{X: 4, Y: 4, Z: 4})))
+			b := lw.w3(must3(sdf.Box3D(v3.Vec{X: 10, Y: 10, Z: 10}, 0)))
+			return sdf.Intersect3D(b, g)
+		}})
+	register(catEntry{Name: "gyroid3d-shell", Ctors: []string{"sdf.Gyroid3D", "sdf.Shell3D", "sdf.Intersect3D"},
+		Build3: func(lw *leafWrapper) sdf.SDF3 {
+			g := must3(sdf.Shell3D(lw.w3(must3(sdf.Gyroid3D(v3.Vec{X: 5, Y: 5, Z: 5}))), 0.4))
+			return sdf.Intersect3D(lw.w3(must3(sdf.Sphere3D(6))), g)
+		}})
+	register(catEntry{Name: "mesh3d", Ctors: []string{"sdf.Mesh3D"},
+		Build3: func(lw *leafWrapper) sdf.SDF3 { return must3(sdf.Mesh3D(catBoxMesh(v3.Vec{X: 1, Y: 2, Z: 3}, v3.Vec{X: 6, Y: 4, Z: 8}))) }})
+	register(catEntry{Name: "mesh3d-slow", Ctors: []string{"sdf.Mesh3DSlow"},
+		Build3: func(lw *leafWrapper) sdf.SDF3 {
+			return must3(sdf.Mesh3DSlow(catBoxMesh(v3.Vec{X: 1, Y: 2, Z: 3}, v3.Vec{X: 6, Y: 4, Z: 8})))
+		}})
+	register(catEntry{Name: "mesh3d-slow-tetra", Ctors: []string{"sdf.Mesh3DSlow"},
+		Build3: func(lw *leafWrapper) sdf.SDF3 { return must3(sdf.Mesh3DSlow(catTetraMesh())) }})
+
+	//-------------------------------------------------------------------------
+	// 2D -> 3D
+
+	register(catEntry{Name: "extrude3d", Ctors: []string{"sdf.Extrude3D"},
+		Build3: func(lw *leafWrapper) sdf.SDF3 { return sdf.Extrude3D(lw.w2(starPolygon()), 6) }})
+	register(catEntry{Name: "twist-extrude3d", Ctors: []string{"sdf.TwistExtrude3D"},
+		Build3: func(lw *leafWrapper) sdf.SDF3 { return sdf.TwistExtrude3D(lw.w2(starPolygon()), 8, sdf.DtoR(60)) }})
+	register(catEntry{Name: "twist-extrude3d-bezier", Ctors: []string{"sdf.TwistExtrude3D"}, Shared: true,
+		Build3: func(lw *leafWrapper) sdf.SDF3 { return sdf.TwistExtrude3D(lw.w2(bezierProfile()), 8, sdf.DtoR(40)) }})
+	register(catEntry{Name: "scale-extrude3d", Ctors: []string{"sdf.ScaleExtrude3D"},
+		Build3: func(lw *leafWrapper) sdf.SDF3 {
+			return sdf.ScaleExtrude3D(lw.w2(sdf.Box2D(v2.Vec{X: 8, Y: 6}, 1)), 8, v2.Vec{X: 0.5, Y: 0.75})
+		}})
+	register(catEntry{Name: "scale-twist-extrude3d", Ctors: []string{"sdf.ScaleTwistExtrude3D"},
+		Build3: func(lw *leafWrapper) sdf.SDF3 {
+			return sdf.ScaleTwistExtrude3D(lw.w2(sdf.Box2D(v2.Vec{X: 8, Y: 6}, 1)), 8, sdf.DtoR(90), v2.Vec{X: 0.5, Y: 0.5})
+		}})
+	register(catEntry{Name: "extrude-rounded3d", Ctors: []string{"sdf.ExtrudeRounded3D"},
+		Build3: func(lw *leafWrapper) sdf.SDF3 { return must3(sdf.ExtrudeRounded3D(lw.w2(starPolygon()), 4, 0.5)) }})
+	register(catEntry{Name: "loft3d", Ctors: []string{"sdf.Loft3D"},
+		Build3: func(lw *leafWrapper) sdf.SDF3 {
+			a := lw.w2(must2(sdf.Circle2D(4)))
+			b := lw.w2(sdf.Box2D(v2.Vec{X: 6, Y: 6}, 0.5))
+			return must3(sdf.Loft3D(a, b, 10, 0.5))
+		}})
+	register(catEntry{Name: "loft3d-sharp", Ctors: []string{"sdf.Loft3D"},
+		Build3: func(lw *leafWrapper) sdf.SDF3 {
+			a := lw.w2(sdf.Box2D(v2.Vec{X: 8, Y: 4}, 0))
+			b := lw.w2(must2(sdf.Circle2D(2)))
+			return must3(sdf.Loft3D(a, b, 10, 0))
+		}})
+	register(catEntry{Name: "revolve3d", Ctors: []string{"sdf.Revolve3D"},
+		Build3: func(lw *leafWrapper) sdf.SDF3 {
+			p := sdf.Transform2D(lw.w2(sdf.Box2D(v2.Vec{X: 3, Y: 6}, 0.5)), sdf.Translate2d(v2.Vec{X: 5, Y: 0}))
+			return must3(sdf.Revolve3D(p))
+		}})
+	register(catEntry{Name: "revolve-theta3d", Ctors: []string{"sdf.RevolveTheta3D"},
+		Build3: func(lw *leafWrapper) sdf.SDF3 {
+			p := sdf.Transform2D(lw.w2(sdf.Box2D(v2.Vec{X: 3, Y: 6}, 0.5)), sdf.Translate2d(v2.Vec{X: 5, Y: 0}))
+			return must3(sdf.RevolveTheta3D(p, sdf.DtoR(270)))
+		}})
+	register(catEntry{Name: "revolve-theta3d-small", Ctors: []string{"sdf.RevolveTheta3D"},
+		Build3: func(lw *leafWrapper) sdf.SDF3 {
+			p := sdf.Transform2D(lw.w2(must2(sdf.Circle2D(2))), sdf.Translate2d(v2.Vec{X: 6, Y: 0}))
+			return must3(sdf.RevolveTheta3D(p, sdf.DtoR(60)))
+		}})
+
+	//-------------------------------------------------------------------------
+	// screws
+
+	register(catEntry{Name: "screw3d-iso", Ctors: []string{"sdf.Screw3D", "sdf.ISOThread"},
+		Build3: func(lw *leafWrapper) sdf.SDF3 {
+			return must3(sdf.Screw3D(lw.w2(must2(sdf.ISOThread(5, 2, true))), 8, 0, 2, 1))
+		}})
+	register(catEntry{Name: "screw3d-iso-internal-lh", Ctors: []string{"sdf.Screw3D", "sdf.ISOThread"},
+		Build3: func(lw *leafWrapper) sdf.SDF3 {
+			return must3(sdf.Screw3D(lw.w2(must2(sdf.ISOThread(5, 2, false))), 8, 0, 2, -1))
+		}})
+	register(catEntry{Name: "screw3d-acme", Ctors: []string{"sdf.Screw3D", "sdf.AcmeThread"},
+		Build3: func(lw *leafWrapper) sdf.SDF3 {
+			return must3(sdf.Screw3D(lw.w2(must2(sdf.AcmeThread(5, 2))), 10, 0, 2, 2))
+		}})
+	register(catEntry{Name: "screw3d-ansi-buttress", Ctors: []string{"sdf.Screw3D", "sdf.ANSIButtressThread"},
+		Build3: func(lw *leafWrapper) sdf.SDF3 {
+			return must3(sdf.Screw3D(lw.w2(must2(sdf.ANSIButtressThread(5, 2))), 8, 0, 2, 1))
+		}})
+	register(catEntry{Name: "screw3d-plastic-buttress", Ctors: []string{"sdf.Screw3D", "sdf.PlasticButtressThread"},
+		Build3: func(lw *leafWrapper) sdf.SDF3 {
+			return must3(sdf.Screw3D(lw.w2(must2(sdf.PlasticButtressThread(5, 2))), 8, 0, 2, 1))
+		}})
+	register(catEntry{Name: "screw3d-taper", Ctors: []string{"sdf.Screw3D", "sdf.ISOThread"},
+		Build3: func(lw *leafWrapper) sdf.SDF3 {
+			return must3(sdf.Screw3D(lw.w2(must2(sdf.ISOThread(6, 1.5, true))), 8, sdf.DtoR(5), 1.5, 1))
+		}})
+
+	//-------------------------------------------------------------------------
+	// 3D combinators
+
+	register(catEntry{Name: "transform3d", Ctors: []string{"sdf.Transform3D"},
+		Build3: func(lw *leafWrapper) sdf.SDF3 {
+			m := sdf.Translate3d(v3.Vec{X: 2, Y: -1, Z: 3}).Mul(sdf.RotateX(sdf.DtoR(20))).Mul(sdf.RotateZ(sdf.DtoR(35)))
+			return sdf.Transform3D(lw.w3(must3(sdf.Box3D(v3.Vec{X: 6, Y: 4, Z: 8}, 0.5))), m)
+		}})
+	register(catEntry{Name: "transform3d-mirror", Ctors: []string{"sdf.Transform3D"},
+		Build3: func(lw *leafWrapper) sdf.SDF3 {
+			return sdf.Transform3D(lw.w3(must3(sdf.Cone3D(10, 5, 2, 0.5))), sdf.MirrorXY())
+		}})
+	register(catEntry{Name: "scale-uniform3d", Ctors: []string{"sdf.ScaleUniform3D"},
+		Build3: func(lw *leafWrapper) sdf.SDF3 { return sdf.ScaleUniform3D(lw.w3(must3(sdf.Cylinder3D(10, 3, 0.5))), 0.5) }})
+	register(catEntry{Name: "union3d", Ctors: []string{"sdf.Union3D"},
+		Build3: func(lw *leafWrapper) sdf.SDF3 {
+			a := lw.w3(must3(sdf.Sphere3D(5)))
+			b := lw.w3(sdf.Transform3D(must3(sdf.Box3D(v3.Vec{X: 6, Y: 6, Z: 6}, 0.5)), sdf.Translate3d(v3.Vec{X: 4, Y: 1, Z: 2})))
+			c := lw.w3(must3(sdf.Cylinder3D(14, 2, 0)))
+			return sdf.Union3D(a, b, c)
+		}})
+	register(catEntry{Name: "union3d-blend", Ctors: []string{"sdf.Union3D"},
+		Build3: func(lw *leafWrapper) sdf.SDF3 {
+			a := lw.w3(must3(sdf.Sphere3D(4)))
+			b := lw.w3(catOffsetSphere(3, v3.Vec{X: 5, Y: 0, Z: 0}))
+			u := sdf.Union3D(a, b)
+			u.(*sdf.UnionSDF3).SetMin(sdf.PolyMin(1.5))
+			return u
+		}})
+	register(catEntry{Name: "difference3d", Ctors: []string{"sdf.Difference3D"},
+		Build3: func(lw *leafWrapper) sdf.SDF3 {
+			a := lw.w3(must3(sdf.Box3D(v3.Vec{X: 10, Y: 8, Z: 6}, 1)))
+			b := lw.w3(must3(sdf.Cylinder3D(12, 2, 0)))
+			return sdf.Difference3D(a, b)
+		}})
+	register(catEntry{Name: "intersect3d", Ctors: []string{"sdf.Intersect3D"},
+		Build3: func(lw *leafWrapper) sdf.SDF3 {
+			a := lw.w3(must3(sdf.Sphere3D(5)))
+			b := lw.w3(must3(sdf.Box3D(v3.Vec{X: 8, Y: 8, Z: 8}, 0)))
+			return sdf.Intersect3D(a, b)
+		}})
+	register(catEntry{Name: "cut3d", Ctors: []string{"sdf.Cut3D"},
+		Build3: func(lw *leafWrapper) sdf.SDF3 {
+			return sdf.Cut3D(lw.w3(must3(sdf.Sphere3D(5))), v3.Vec{X: 0, Y: 0, Z: 1}, v3.Vec{X: 1, Y: 1, Z: 2})
+		}})
+	register(catEntry{Name: "elongate3d", Ctors: []string{"sdf.Elongate3D"},
+		Build3: func(lw *leafWrapper) sdf.SDF3 {
+			return sdf.Elongate3D(lw.w3(must3(sdf.Sphere3D(2))), v3.Vec{X: 3, Y: 1, Z: 0.5})
+		}})
+	register(catEntry{Name: "array3d", Ctors: []string{"sdf.Array3D"},
+		Build3: func(lw *leafWrapper) sdf.SDF3 {
+			return sdf.Array3D(lw.w3(must3(sdf.Sphere3D(2))), v3i.Vec{X: 2, Y: 2, Z: 2}, v3.Vec{X: 5, Y: 5, Z: 6})
+		}})
+	register(catEntry{Name: "array3d-blend", Ctors: []string{"sdf.Array3D"},
+		Build3: func(lw *leafWrapper) sdf.SDF3 {
+			a := sdf.Array3D(lw.w3(must3(sdf.Sphere3D(2))), v3i.Vec{X: 3, Y: 1, Z: 1}, v3.Vec{X: 3.5, Y: 0, Z: 0})
+			a.(*sdf.ArraySDF3).SetMin(sdf.PolyMin(0.8))
+			return a
+		}})
+	register(catEntry{Name: "rotate-union3d", Ctors: []string{"sdf.RotateUnion3D"},
+		Build3: func(lw *leafWrapper) sdf.SDF3 {
+			s := lw.w3(catOffsetSphere(2, v3.Vec{X: 5, Y: 0, Z: 0}))
+			return sdf.RotateUnion3D(s, 6, sdf.RotateZ(sdf.DtoR(60)))
+		}})
+	register(catEntry{Name: "rotate-copy3d", Ctors: []string{"sdf.RotateCopy3D"},
+		Build3: func(lw *leafWrapper) sdf.SDF3 {
+			s := lw.w3(sdf.Transform3D(must3(sdf.Box3D(v3.Vec{X: 2, Y: 1, Z: 3}, 0.2)), sdf.Translate3d(v3.Vec{X: 5, Y: 0, Z: 0})))
+			return sdf.RotateCopy3D(s, 7)
+		}})
+	register(catEntry{Name: "offset3d", Ctors: []string{"sdf.Offset3D"},
+		Build3: func(lw *leafWrapper) sdf.SDF3 { return sdf.Offset3D(lw.w3(must3(sdf.Box3D(v3.Vec{X: 6, Y: 4, Z: 8}, 0))), 1) }})
+	register(catEntry{Name: "shell3d", Ctors: []string{"sdf.Shell3D"},
+		Build3: func(lw *leafWrapper) sdf.SDF3 { return must3(sdf.Shell3D(lw.w3(must3(sdf.Sphere3D(5))), 0.5)) }})
+	register(catEntry{Name: "line-of3d", Ctors: []string{"sdf.LineOf3D"},
+		Build3: func(lw *leafWrapper) sdf.SDF3 {
+			return sdf.LineOf3D(lw.w3(must3(sdf.Sphere3D(1))), v3.Vec{}, v3.Vec{X: 20, Y: 5, Z: 3}, "x.xxx")
+		}})
+	register(catEntry{Name: "multi3d", Ctors: []string{"sdf.Multi3D"},
+		Build3: func(lw *leafWrapper) sdf.SDF3 {
+			return sdf.Multi3D(lw.w3(must3(sdf.Box3D(v3.Vec{X: 2, Y: 2, Z: 2}, 0.3))), v3.VecSet{{X: 0, Y: 0, Z: 0}, {X: 4, Y: 1, Z: 2}, {X: -3, Y: 5, Z: -1}})
+		}})
+	register(catEntry{Name: "orient3d", Ctors: []string{"sdf.Orient3D"},
+		Build3: func(lw *leafWrapper) sdf.SDF3 {
+			s := lw.w3(must3(sdf.Cylinder3D(10, 1, 0)))
+			return sdf.Orient3D(s, v3.Vec{X: 0, Y: 0, Z: 1}, v3.VecSet{{X: 1, Y: 0, Z: 0}, {X: 0, Y: 1, Z: 0}, {X: 1, Y: 1, Z: 1}})
+		}})
+	register(catEntry{Name: "voxel3d", Ctors: []string{"sdf.NewVoxelSDF3"},
+		Build3: func(lw *leafWrapper) sdf.SDF3 { return sdf.NewVoxelSDF3(lw.w3(must3(sdf.Sphere3D(5))), 10, nil) }})
+	register(catEntry{Name: "voxel3d-csg", Ctors: []string{"sdf.NewVoxelSDF3", "sdf.Difference3D"},
+		Build3: func(lw *leafWrapper) sdf.SDF3 {
+			a := lw.w3(must3(sdf.Box3D(v3.Vec{X: 10, Y: 8, Z: 6}, 1)))
+			b := lw.w3(must3(sdf.Cylinder3D(12, 2, 0)))
+			return sdf.NewVoxelSDF3(sdf.Difference3D(a, b), 8, nil)
+		}})
 }
